@@ -99,7 +99,8 @@ type c19Env struct {
 	pairs    *os.File
 	npairs   int
 	maxPairs int
-	fixed    int // variant of the tree under test: f4fixed + 2*lmode + 8*efix (see the oracle)
+	sanitizeSpec bool // apiMsgs returns sanitised contents (specification side on an F5-repaired tree)
+	fixed    int // variant of the tree under test: f4fixed + 2*lmode + 8*efix + 16*f5fixed (see the oracle)
 	probeOdd int // probes that matched neither variant
 }
 
@@ -205,6 +206,18 @@ func c19NewEnv(t *testing.T) *c19Env {
 		t.Logf("C19 cut variant probe: unexpected prompt %q (err=%v)", r.prompt, r.err)
 		e.probeOdd++
 	}
+	// literal image tag in the text (F5 probe): bit 4.  Repaired = chatPrompt neutralises `[img-` in every
+	// incoming content first (proposed_fixes/C19-F5-literal-image-tag.patch)
+	probe = c19Case{style: c19StyleInPlace, limit: 2048, proj: 2, msgs: []c19Msg{{role: "u", content: "see [img-0]", imgs: []c19Img{{1, true}}}}}
+	r = e.runReal(&probe)
+	switch r.prompt {
+	case "[user|[img-0]see [img-0]]":
+	case "[user|[img-0]see [img -0]]":
+		e.fixed |= 16
+	default:
+		t.Logf("C19 literal-tag variant probe: unexpected prompt %q (err=%v)", r.prompt, r.err)
+		e.probeOdd++
+	}
 	return e
 }
 
@@ -222,6 +235,11 @@ func (e *c19Env) apiMsgs(c *c19Case) []api.Message {
 	out := make([]api.Message, len(c.msgs))
 	for i, m := range c.msgs {
 		out[i] = api.Message{Role: c19RoleNames[m.role], Content: m.content}
+		if e.fixed&16 != 0 && e.sanitizeSpec {
+			// repaired tree: what the specification renders / measures is the sanitised text (the real chatPrompt
+			// gets the raw text: runReal switches this off)
+			out[i].Content = strings.ReplaceAll(m.content, "[img-", "[img -")
+		}
 		for _, im := range m.imgs {
 			out[i].Images = append(out[i].Images, api.ImageData(e.imgBytes(im)))
 		}
@@ -309,7 +327,10 @@ type c19Real struct {
 }
 
 func (e *c19Env) runReal(c *c19Case) (r c19Real) {
+	spec := e.sanitizeSpec
+	e.sanitizeSpec = false
 	r.msgs = e.apiMsgs(c)
+	e.sanitizeSpec = spec
 	tok := func(_ context.Context, s string) ([]int, error) {
 		r.calls++
 		r.tokIn = append(r.tokIn, s)
@@ -1149,6 +1170,11 @@ func (e *c19Env) emitPair(c *c19Case, r *c19Real) {
 	for _, m := range c.msgs {
 		if strings.Contains(m.content, "[img-") {
 			h = "H0"
+			// S: the template prints every message's content exactly once, so "each returned image is embedded
+			// exactly once" can be evaluated on the runner side
+			if c.style == c19StyleMessages || c.style == c19StyleInPlace || c.style == c19StyleTools {
+				h = "H0S"
+			}
 		}
 	}
 	fmt.Fprintf(e.pairs, "%s %s %d", h, zzverif.Hex([]byte(r.prompt)), len(r.images))
@@ -1238,6 +1264,8 @@ func TestVerifC19(t *testing.T) {
 	out.Add("variant_f4_fixed", e.fixed&1)
 	out.Add("variant_legacy_mode", (e.fixed>>1)&3)
 	out.Add("variant_cut_else_fixed", (e.fixed>>3)&1)
+	out.Add("variant_f5_literal_tag_fixed", (e.fixed>>4)&1)
+	e.sanitizeSpec = true
 
 	if p := os.Getenv("VERIF_REPLAY"); p != "" {
 		raw, err := os.ReadFile(p)
